@@ -437,8 +437,14 @@ def u_visit_annassign(c):
 
 AUG_SCHEMAS = [
     ("name", "x += __E1", [("x", None, None, "x", True)]),
-    ("attribute", "o.a += __E1", []),
-    ("subscript", "o[__E2] += __E1", []),
+    # an augmented assignment to an attribute / an item of a variable binds that place like the plain store does (`K.m > self.x` selects
+    # it): one event with the value stored, the object and the index evaluated once and first as the statement itself does
+    ("attribute", "o.a += __E1", [("o", ("attr", "a"), None, "_ptera__1", True)]),
+    ("subscript", "o[__E2] += __E1", [("o", ("index", "_ptera__2"), None, "_ptera__1", True)]),
+    ("subscript-const-index", "o[0] += __E1", [("o", ("index", "0"), None, "_ptera__1", True)]),
+    ("subscript-name-index", "o[k] += __E1", [("o", ("index", "_ptera__2"), None, "_ptera__1", True)]),
+    ("slice", "o[__E2:] += __E1", []),
+    ("deeper-attribute", "o.p.a += __E1", []),
 ]
 
 
@@ -460,9 +466,12 @@ def u_visit_augassign(c):
     erased = [x for x in (erased if isinstance(erased, list) else [erased]) if x is not None]
     c.prove(f"{label}/transparent:erase(visit(s))~s", PE.dump(erased) == PE.dump([original]), note=PE.dump(erased)[:300], only=["C01", "C04"])
     got = [e.sig() for e in PE.events(outs)]
-    exp = [ev_sig(*e) for e in evs if dec.get((e[0], None), False)]
-    c.prove(f"{label}/events==instrumented-bindings-in-order", got == exp, only=["C02", "C04"])
+    # (an attribute store is also the binding of the dotted path the selector may name: K.m > self.x)
+    exp = [ev_sig(*e) for e in evs if dec.get((e[0], None), False) or (e[1] is not None and e[1][0] == "attr" and dec.get((f"{e[0]}.{e[1][1]}", None), False))]
+    c.prove(f"{label}/events==instrumented-bindings-in-order", got == exp, note=f"{got} vs {exp}", only=["C02", "C04"])
     c.prove(f"{label}/operand-visited", "__VE1" in "".join(PE.dump(o) for o in outs), only=["C02", "C06"])
+    if "__E2" in src:
+        c.prove(f"{label}/index-visited", "__VE2" in "".join(PE.dump(o) for o in outs), only=["C02", "C06"])
     if label == "name" and dec.get(("x", None)):
         c.prove("name/event-follows-the-augmented-statement", len(outs) == 2 and isinstance(outs[0], ast.AugAssign) and isinstance(outs[1], ast.Assign), only=["C02", "C04"])
 
@@ -647,6 +656,12 @@ PASS_SCHEMAS = [
     ("lambda-default-with-walrus", "k = lambda q=(m := __E1): __E2", [("m", None, None, "__VE1", True), ("k", None, None, "*", True)]),
     ("nested-def-default-with-walrus", "def g(z=(w := __E1)):\n    return __E2", [("w", None, None, "__VE1", True)]),
     ("nested-async-def", "async def g(a):\n    x = __E1\n    return x", []),
+    # the names a match pattern binds (capture, star, rest-of-mapping and `as` patterns) are bound when the pattern succeeds, before the guard
+    # is evaluated: one event each at the start of the case block, in the order of the pattern
+    ("match-sequence-and-mapping", "match __E1:\n    case [a, *rest] if __E2:\n        __S1\n    case {'k': v, **others}:\n        __S2\n    case _:\n        __S3",
+     [("a", None, None, "a", True), ("rest", None, None, "rest", True), ("v", None, None, "v", True), ("others", None, None, "others", True)]),
+    ("match-as-and-or", "match __E1:\n    case str() as s:\n        __S1\n    case (p, q) | [p, q, _]:\n        __S2",
+     [("s", None, None, "s", True), ("p", None, None, "p", True), ("q", None, None, "q", True)]),
     ("comprehension", "r = [__E1 for i in __E2 if __E3]", [("r", None, None, "[__VE1 for i in __VE2 if __VE3]", True)]),
 ]
 
@@ -895,6 +910,65 @@ def u_collector(c):
         c.prove(f"{label}/spec-self-check", any(s.get_name() == nm for s in fsym.get_symbols()), kind="auxiliary")
 
 
+SCOPE_PROGRAMS_MORE = [
+    # what a name is, is decided by the scope that binds it: a nested lambda / def with a parameter or a `global` declaration of the same
+    # name changes nothing for the enclosing function; a parameter stays a parameter however it is bound again
+    ("local-bound-after-a-lambda-with-that-parameter", "def f():\n    g = lambda y: y\n    y = 1\n    return g(y)", {"y": "body"}),
+    ("local-with-a-nested-global-declaration", "def f():\n    def g():\n        global zz\n        zz = 1\n    zz = 2\n    return zz", {"zz": "body"}),
+    ("parameter-rebound-as-exception-name", "def f(e):\n    try:\n        pass\n    except ValueError as e:\n        pass\n    return 1", {"e": "argument"}),
+    ("parameter-rebound-by-import", "def f(os):\n    import os\n    return os", {"os": "argument"}),
+    ("parameter-rebound-by-def", "def f(h):\n    def h():\n        return 1\n    return h", {"h": "argument"}),
+    ("global-declared-and-imported", "def f():\n    global sys\n    import sys\n    return sys", {"sys": "external"}),
+    ("match-patterns", "def f(p):\n    match p:\n        case [a, *rest]:\n            return a, rest\n        case {'k': v, **others}:\n            return v\n        case str() as s:\n            return s",
+     {"a": "body", "rest": "body", "v": "body", "others": "body", "s": "body"}),
+    ("nested-coroutine", "def f():\n    async def inner():\n        return 1\n    return inner", {"inner": "body"}),
+    ("cell-parameter", "def f(a):\n    def g():\n        return a\n    return g", {"a": "argument", "g": "body"}),
+    ("comprehension-variable", "def f(xs):\n    r = [i for i in xs]\n    return r", {"r": "body"}),
+]
+
+
+@unit("python-scoping", ["C10"], [TR + ":_python_scoping"], mode="bounded",
+      bound=f"{len(SCOPE_PROGRAMS) + len(SCOPE_PROGRAMS_MORE)} programs, one per placement of a binding or a read; compiled by CPython, classified by the real function, compared with CPython's symtable",
+      assumed=["Python's scoping rules are taken from CPython's own symtable for the same source (trusted oracle)", "dis.get_instructions lists the instructions of the code object"])
+def u_python_scoping(c):
+    """The provenance recorded for a variable (argument, body, closure, external) is read off the code object CPython compiled for the
+    function: for every name of the function's own scope it agrees with Python's scoping of that name."""
+    import symtable
+
+    it = Interp(c)
+    it.module_env(TR).vars["inspect"] = __import__("inspect")
+    progs = SCOPE_PROGRAMS + SCOPE_PROGRAMS_MORE
+    label, src, expect = progs[c.choose(len(progs), "program")]
+    closure = label.startswith("closure")
+    wrapped = ("def outer():\n    fv = 0\n" + "\n".join("    " + ln for ln in src.splitlines()) + "\n    return " + src.split("(")[0].split()[1]) if closure else src
+    ns = {}
+    exec(compile(wrapped, "<scope>", "exec"), ns)
+    name = src.split("(")[0].split()[1]
+    fn = ns["outer"]() if closure else ns[name]
+    st, scoping = run(it, it.get_global(TR, "_python_scoping"), [fn.__code__])
+    c.prove(f"{label}/does-not-raise", st == "ok", note=repr(scoping))
+    if st != "ok":
+        return
+    scoping = dict(scoping)
+    top = symtable.symtable(wrapped, "<scope>", "exec")
+    fsym = top.get_children()[0]
+    if closure:
+        fsym = fsym.get_children()[0]
+    seen = 0
+    for sym in fsym.get_symbols():
+        nm = sym.get_name()
+        kind = "argument" if sym.is_parameter() else "closure" if sym.is_free() else "body" if sym.is_local() else "external" if sym.is_global() else None
+        if kind is None:
+            continue
+        seen += 1
+        if kind == "external" and nm not in fn.__code__.co_names:
+            continue  # a name that only stands in the annotation of a local: never evaluated, the code object does not mention it
+        c.prove(f"{label}/provenance-agrees-with-python:{kind}", scoping.get(nm) == kind, note=f"{nm}: ptera={scoping.get(nm)} python={kind}")
+    c.prove(f"{label}/only-names-of-the-function's-own-scope", set(scoping) <= {s_.get_name() for s_ in fsym.get_symbols()}, note=str(sorted(scoping)))
+    for nm, kind in expect.items():
+        c.prove(f"{label}/spec-self-check", any(s_.get_name() == nm for s_ in fsym.get_symbols()) and scoping.get(nm) == kind, note=f"{nm}: {scoping.get(nm)} expected {kind}")
+
+
 # ---------------------------------------------------------------------------------------------
 # transform(): the orchestration around the transformer (bounded: sample functions in a real module file)
 # ---------------------------------------------------------------------------------------------
@@ -945,6 +1019,28 @@ text at column zero
 """
         w = v
         return s, w
+
+class _Vault:
+    def __init__(self):
+        self.__v = 5
+
+    def __half(self, k):
+        return k // 2
+
+    def private_names(self, v, __k=3):
+        w = self.__v + self.__half(v) + __k
+        self.__last = w
+        return w, sorted(vars(self))
+
+def matcher(p):
+    match p:
+        case [a, *rest]:
+            return a, rest
+        case {"k": v, **others}:
+            return v, others
+        case str() as s:
+            return s
+    return None
 
 async def coroutine(x):
     y = x
@@ -1023,8 +1119,10 @@ def u_transform_orchestration(c):
         spec = importlib.util.spec_from_file_location(os.path.basename(p)[:-3], p)
         mod = importlib.util.module_from_spec(spec)
         spec.loader.exec_module(mod)
-        which = c.choose(14, "function")
-        if which >= 11:
+        which = c.choose(16, "function")
+        if which >= 14:
+            which -= 3  # (the objects that cannot be instrumented are 11-13 below)
+        elif which >= 11:
             # objects that cannot be instrumented are refused with the documented TypeError (C10), not an assertion / OSError
             ns = {}
             exec("def made_by_exec(x):\n    y = x\n    return y\n", ns)
@@ -1035,12 +1133,16 @@ def u_transform_orchestration(c):
             return
         inc, get = mod.siblings()
         fn = [mod.plain, mod.outer(5), mod.gen, mod.annotated, mod.K.method, mod.outer2(3), mod.with_defaults, mod.factory(), get,
-              mod.Texts.indented, mod.Texts.column_zero][which]
+              mod.Texts.indented, mod.Texts.column_zero, mod._Vault.private_names, mod.matcher][which]
         label = ["plain", "closure", "generator", "annotated", "method", "closure-with-defaults", "default-expressions", "defaults-from-enclosing-scope",
-                 "closure-rebound-by-sibling", "method-with-multi-line-string", "method-with-text-at-column-zero"][which]
+                 "closure-rebound-by-sibling", "method-with-multi-line-string", "method-with-text-at-column-zero", "method-with-private-names", "match-statement"][which]
         samples = {"plain": [(1,), (1, 5)], "closure": [(4,)], "generator": [], "annotated": [(3,), (3, 4, 5)], "method": [(None, 2)],
                    "closure-with-defaults": [(1,), (1, 9), (1, 9, 8)], "default-expressions": [(), (7,)], "defaults-from-enclosing-scope": [(), (3,)],
-                   "closure-rebound-by-sibling": [()], "method-with-multi-line-string": [(None, 1)], "method-with-text-at-column-zero": [(None, 1)]}[label]
+                   "closure-rebound-by-sibling": [()], "method-with-multi-line-string": [(None, 1)], "method-with-text-at-column-zero": [(None, 1)],
+                   # (names starting with two underscores are private to the class body they are written in: CPython compiles them as
+                   # _Class__name, and so must the rebuilt method)
+                   "method-with-private-names": [(mod._Vault(), 4), (mod._Vault(), 4, 1)],
+                   "match-statement": [([1, 2, 3],), ({"k": 1, "z": 2},), ("text",), (5,)]}[label]
         evals_before = list(mod.EVALS)
         ksamples = {"closure-with-defaults": [{}, {"bias": 1}, {"tag": "q", "bias": 0}], "annotated": [{}, {"flag": True, "extra": 1}]}.get(label, [{}])
 
@@ -1064,7 +1166,7 @@ def u_transform_orchestration(c):
         Element = it.get_global("ptera.selector", "Element")
         first_local = {"plain": "c", "closure": "y", "generator": "i", "annotated": "z", "method": "w", "closure-with-defaults": "z",
                        "default-expressions": "r", "defaults-from-enclosing-scope": "q", "closure-rebound-by-sibling": "v",
-                       "method-with-multi-line-string": "w", "method-with-text-at-column-zero": "w"}[label]
+                       "method-with-multi-line-string": "w", "method-with-text-at-column-zero": "w", "method-with-private-names": "w", "match-statement": "rest"}[label]
         to_instrument = True if everything else [it.call(Element, [], dict(name=first_local, capture=first_local))]
         glb = fn.__globals__
         before_name = glb.get(fn.__name__, "<<missing>>")
@@ -1152,9 +1254,14 @@ def u_transform_orchestration(c):
             is_closure = bool(fn.__closure__)
             binds = "".join(f"    {nm} = 0\n" for nm in fn.__code__.co_freevars)
             wrapped = ("def __o():\n" + binds + "\n".join("    " + ln for ln in src.splitlines())) if is_closure else src
+            owner = fn.__qualname__.split(".")[-2:-1]
+            in_class = bool(owner) and owner[0] != "<locals>" and not is_closure
+            if in_class:
+                # a method is compiled in the body of its class (private names are mangled with the name of that class)
+                wrapped = f"class {owner[0]}:\n" + "\n".join("    " + ln for ln in src.splitlines())
             top = symtable.symtable(wrapped, "<s>", "exec")
             fs = top.get_children()[0]
-            if is_closure:
+            if is_closure or in_class:
                 fs = fs.get_children()[0]
             want = {}
             for sym in fs.get_symbols():
